@@ -189,6 +189,28 @@ func c01Setup(L int, kind int) *evalEnv {
 			val = variants.VariantFromDouble(vF64("val"))
 		case 2:
 			val = variants.VariantFromBoolean(vBool("val"))
+		case 4:
+			// boundary values of every supported type (all concrete)
+			pool := []*variants.Variant{
+				variants.VariantFromInteger(0), variants.VariantFromInteger(-1), variants.VariantFromInteger(7), variants.VariantFromInteger(9223372036854775807),
+				variants.EmptyVariant(), variants.VariantFromBoolean(true), variants.VariantFromBoolean(false),
+				variants.VariantFromString(""), variants.VariantFromString("ab"), variants.VariantFromString("7"), variants.VariantFromString("é"),
+				variants.VariantFromDouble(0), variants.VariantFromDouble(2.5), variants.VariantFromLong(-3), variants.VariantFromFloat(1.5),
+				variants.VariantFromArray([]*variants.Variant{variants.VariantFromInteger(1), variants.VariantFromString("x")}),
+				variants.VariantFromArray([]*variants.Variant{}),
+			}
+			val = pool[vChoice("boundary", len(pool))]
+		case 5:
+			switch vChoice("valtype", 4) {
+			case 0:
+				val = variants.VariantFromInteger(vInt("val"))
+			case 1:
+				val = variants.EmptyVariant()
+			case 2:
+				val = variants.VariantFromBoolean(vBool("val"))
+			case 3:
+				val = variants.VariantFromArray([]*variants.Variant{variants.VariantFromInteger(vInt("el")), variants.VariantFromInteger(vInt("el"))})
+			}
 		default:
 			switch vChoice("valtype", 5) {
 			case 0:
